@@ -77,6 +77,7 @@ type HarnessRun struct {
 	stop                         bool
 	maxDepthSeen                 int
 	firstViol                    time.Time
+	restarts                     int
 	cfg                          RunConfig
 }
 
@@ -395,7 +396,7 @@ func newMachine(hr *HarnessRun, solver *Solver, prefix []byte) *Machine {
 }
 
 // runPath executes one path of the harness.
-func (hr *HarnessRun) runPath(solver *Solver, prefix []byte) {
+func (hr *HarnessRun) runPath(solver *Solver, prefix []byte) string {
 	solver.Reset()
 	m := newMachine(hr, solver, prefix)
 	reason := ""
@@ -409,6 +410,14 @@ func (hr *HarnessRun) runPath(solver *Solver, prefix []byte) {
 			case pathEnd:
 				reason = r.reason
 			case engineErr:
+				if solver.dead && hr.restarts < 64 {
+					// the solver process died (killed, out of memory): the path is re-run on a fresh one
+					reason = "solver-restart"
+					hr.mu.Lock()
+					hr.restarts++
+					hr.mu.Unlock()
+					return
+				}
 				reason = "engine-error"
 				hr.mu.Lock()
 				if len(hr.errs) < 20 {
@@ -493,6 +502,9 @@ func (hr *HarnessRun) runPath(solver *Solver, prefix []byte) {
 			}()
 		}
 	}
+	if reason == "solver-restart" {
+		return reason
+	}
 	hr.mu.Lock()
 	hr.paths++
 	hr.ended[reason]++
@@ -519,6 +531,7 @@ func (hr *HarnessRun) runPath(solver *Solver, prefix []byte) {
 		hr.cond.Broadcast()
 	}
 	hr.mu.Unlock()
+	return reason
 }
 
 func shortStack() string {
@@ -592,13 +605,24 @@ func (p *Program) Explore(fn *ssa.Function, cfg RunConfig) *HarnessRun {
 				hr.cond.Broadcast()
 				return
 			}
-			defer solver.Close()
+			defer func() { solver.Close() }()
 			for {
 				prefix, ok := hr.pop()
 				if !ok {
 					break
 				}
-				hr.runPath(solver, prefix)
+				why := hr.runPath(solver, prefix)
+				if solver.dead {
+					solver.Close()
+					ns, err := NewSolver(cfg.Solver, cfg.TimeoutMs)
+					if err == nil {
+						ns.Queries, ns.Sat, ns.Unsat, ns.Unknown, ns.Time = solver.Queries, solver.Sat, solver.Unsat, solver.Unknown, solver.Time
+						solver = ns
+						if why == "solver-restart" {
+							hr.push(prefix)
+						}
+					}
+				}
 				hr.done()
 			}
 			hr.mu.Lock()
